@@ -15,7 +15,7 @@ STRATEGIES = ["reliable", "default_pacbio", "sensitive_pacbio", "fl_pacbio", "de
 
 def noisy_world(seed, n_chroms=3):
     w = world2.rich_world(seed, n_chroms=n_chroms, genes_per_chrom=3, reads_per_t=6, hidden_cov=7, unmapped=1, extra_len=70000,
-                          zoo=("twins", "contested", "alt_terminal", "shifted_site", "shared_chain", "same_coords"))
+                          zoo=tuple(z for z in world2.ZOO_ALL if z not in ("intronic", "apa")))
     rng = w.rng
     # genes whose hidden isoform is a new combination of annotated introns (.nic)
     for ci, chrom in enumerate(w.chrom_order):
@@ -61,6 +61,8 @@ def noisy_world(seed, n_chroms=3):
                     ex = list(t.exons)
                     k = rng.randrange(len(ex) - 1)
                     sh = rng.choice((-17, 15, 23))
+                    if ex[k][1] - ex[k][0] < 60 or ex[k + 1][0] - ex[k][1] < 60:
+                        continue
                     ex[k] = (ex[k][0], ex[k][1] + sh)
                     w.make_read(t.chrom, ex, indels=1, mismatches=2, truth={"src": t.id, "class": "noisy-junction"})
     return w
